@@ -1471,4 +1471,93 @@ theorem presence_sound {H : HashFn} (hk : HashOK H) {ign : Bool} {L : List NsHas
               exact right_none hsr (fun x hx => hleaf x (hsub x (Or.inr (Or.inr hx)))) hsMR hchk2
 
 
+theorem luminaVCN_ok {H : HashFn} {p : NsProof} {root : NsHash} {l : List Bytes} {ns : Bytes}
+    (h : luminaVerifyCompleteNamespace H p root l ns = .ok ()) : verifyCompleteNamespace H p root l ns = .ok () := by
+  unfold luminaVerifyCompleteNamespace at h
+  split at h
+  · cases h
+  · exact h
+
+/-- **Soundness of `verify_complete_namespace`** against the root of a namespace-sorted list of leaf hashes whose
+    range covers the namespace: accepted raw leaves are exactly the tree's leaves of that namespace (none for an
+    absence proof).  `hwpt` is the proof-type/emptiness agreement that `RowNamespaceData::verify` checks first. -/
+theorem vcn_sound {H : HashFn} (hk : HashOK H) {L : List NsHash} {root : NsHash} {p : NsProof} {ns : Bytes} {datas : List Bytes}
+    (hne : L ≠ []) (al : AllLeaf H L) (hs : SortedNs L) (hroot : computeRoot H true L = .ok root)
+    (wp : ∀ x ∈ p.siblings, x.WF) (wl : ∀ l, p.leaf = some l → l.WF)
+    (hstart : p.start ≤ U32_MAX) (hend : p.end_ ≤ U32_MAX) (hns : ns.length = NS_SIZE)
+    (hwpt : datas.isEmpty = p.isAbsence) (hcont : root.contains H ns = true)
+    (h : verifyCompleteNamespace H p root datas ns = .ok ()) :
+    L.filter (fun x => x.minNs == ns) = datas.map (hashLeaf H ns) := by
+  unfold verifyCompleteNamespace at h
+  split at h
+  · cases h
+  · rename_i hlen
+    unfold verifyNamespace at h
+    have hnotempty : root.isEmptyRoot H = false := by
+      unfold NsHash.isEmptyRoot
+      have := computeRoot_ne_empty hk hne al hroot
+      simpa using this
+    simp only [hnotempty, Bool.false_and, Bool.false_eq_true, ↓reduceIte] at h
+    by_cases hab : p.isAbsence = true
+    · -- absence proof
+      have hd : datas = [] := by
+        rw [hab] at hwpt
+        cases datas with
+        | nil => rfl
+        | cons a b => simp at hwpt
+      subst hd
+      simp only [hab, ↓reduceIte, hcont, Bool.not_true, Bool.false_eq_true] at h
+      cases hleaf : p.leaf with
+      | none => simp [hleaf] at h
+      | some lf =>
+        simp only [hleaf, List.isEmpty_nil, Bool.not_true, Bool.false_eq_true, ↓reduceIte] at h
+        by_cases hlt : leB lf.minNs ns = true
+        · simp [hlt] at h
+        · simp only [hlt, Bool.false_eq_true, ↓reduceIte] at h
+          by_cases hnp : computeNumLeftSiblings p.start > 0 ∧ p.siblings.length < computeNumLeftSiblings p.start
+          · simp [hnp] at h
+          · simp only [hnp, ↓reduceIte] at h
+            generalize hbad : (if computeNumLeftSiblings p.start > 0 then
+                match p.siblings[computeNumLeftSiblings p.start - 1]? with
+                | some sib => leB ns sib.maxNs
+                | none => false
+              else false) = bad at h
+            cases bad with
+            | true => simp at h
+            | false =>
+              simp only [Bool.false_eq_true, ↓reduceIte] at h
+              have hnone := absence_sound hk hne al hs hroot wp (wl lf hleaf) hstart hns hcont
+                (by simpa using hlt)
+                (by
+                  intro sib hpos hget
+                  have := hbad
+                  simp only [hpos, ↓reduceIte, hget] at this
+                  exact this) h
+              simp only [List.map_nil]
+              rw [List.filter_eq_nil_iff]
+              intro a ha
+              simpa using hnone a ha
+    · -- presence proof
+      have hab' : p.isAbsence = false := by simpa using hab
+      have hdne : datas.isEmpty = false := by rw [hwpt, hab']
+      have hd1 : 1 ≤ datas.length := by
+        cases datas with
+        | nil => simp at hdne
+        | cons a b => simp
+      simp only [hab', Bool.false_eq_true, ↓reduceIte, hcont, Bool.not_true] at h
+      have hlen' : datas.length = p.rangeLen := by
+        simp only [hab', Bool.not_false, Bool.true_and, decide_eq_true_eq, ne_eq, Decidable.not_not] at hlen
+        exact hlen
+      split at h
+      · cases h
+      · rename_i complete hck
+        split at h
+        · rename_i hc
+          subst hc
+          have hend' : p.start + datas.length ≤ U32_MAX + 1 := by
+            unfold NsProof.rangeLen at hlen'; omega
+          exact presence_sound hk hne al hs hroot wp hend' hns hcont hd1 hck
+        · cases h
+
+
 end Lumina.Proofs.NmtRange
